@@ -12,1050 +12,1121 @@ Definition show_fres (r : fres) : string :=
   end.
 Definition check (rs : list rune) : string := digest (show_fres (format_res rs)).
 Definition full (rs : list rune) : string := show_fres (format_res rs).
-Eval vm_compute in ("<<<M146>>>" ++ check (runes_of_ascii "MetaData
-chars {	int8 Z9_,	float rootA	`tab	here`// @lengthOf(
-,
+Eval vm_compute in ("<<<M218>>>" ++ check (runes_of_ascii "packet rootA
+    {Header { repeat i64 int ,
+char[]x	@lengthOf(
+metadata
+    ) , }
+,@leftPad (// a // b
+'\x00'
+    /// triple
+    )a1 string_ , @tag( 0 ) char[]
+    pack @lengthOf( uint8x
+), @calculatedFrom(""a	b"" )
+// " ++ [128512]%N ++ runes_of_ascii " emoji
 //x
-// @lengthOf(
-T o `it's` ,
-roots int , // c
-repeatCount MetaDataX, float32
-    falsey `say ""hi""`,} packet
-    msg_type
-{ repeat f32
-o // `tick` ""quote"" 'q'
-, @tag( 0
-)char[]  A	,  repeat char[] tag `say ""hi""` ,repeat char[ 0 ] Z9_ ,
-zchar[ 1 ] lengthOf ,
-i64 T , match float as
-leftPad {
-    007 : len /// triple
-, ""it's"" : len
-    , ""it's"" : // @lengthOf(
-float
-    [ 255 ,
-00
-, ""abc"", ""abc""
-,
-1
-, """ ++ [28040; 24687]%N ++ runes_of_ascii """ // `tick` ""quote"" 'q'
-, ""x y"" , """" // a // b
-] :	_x ,
-    """" : len ,""\" ++ [233]%N ++ runes_of_ascii """  : // a // b
-i64_
-, //	t
-}, roots{ char[ 1
-]// @lengthOf(
-Header
-@lengthOf( x_y_z )
-    , body u128 , // `tick` ""quote"" 'q'
-char[]
-float ,chars@lengthOf( x  )
-    `doc` ,}
-,
-    crc `it's`
-    // `tick` ""quote"" 'q'
-    , @calculatedFrom(""" ++ [128512]%N ++ runes_of_ascii """
-    )
-    BodyLength `" ++ [28040; 24687; 31867; 22411]%N ++ runes_of_ascii "` , }
-    packet
-    u128{  lengthOf ,pack
-@lengthOf( u8x// c
-)`// not a comment`// " ++ [27880; 37322]%N ++ runes_of_ascii "
-,@leftPad
-    (
-' ' ) float{match
-    asx as
-    charz
-{ [ 4294967296,""""
-, 255 ,42
-    ,""1""  ] : u8x ""{,}""	: Foo 42  :
-leftPad[ // trailing space 
-255 ,
-    // " ++ [128512]%N ++ runes_of_ascii " emoji
-    ""a\""b"" , ""it's""  , 4294967296 ] : stringy , 3
-:Header ,
-} ,match o // `tick` ""quote"" 'q'
-as
-    Pad
-    // trailing space 
-    { 3 :
-    i64_//x
-, } ,repeat
-    string msg_type ,
-    match
-packetx // " ++ [27880; 37322]%N ++ runes_of_ascii "
-as
-lengthOf
-    { [ ""x y"","""" ]
-:x_y_z
-// " ++ [27880; 37322]%N ++ runes_of_ascii "
-// c
-}, } ,i64 float,repeat
-    zchar[ 3  ] rootA
-    `crlf
-line`, match msg_type as len{
-""CRC32"":
-MetaDataX
-,
-} ,
-    f32
-A , char[
-0123456789 ] chars// " ++ [27880; 37322]%N ++ runes_of_ascii "
-`{ , }` , /// triple
-@calculatedFrom( ""a\""b""
-) string
+f64
 string_
-    `" ++ [233]%N ++ runes_of_ascii "` ,}
+    , char[] packetx ,
+}
+packet  repeatCount	{@rightPad(	)
+falsey A
+    `" ++ [233]%N ++ runes_of_ascii "`,// packet A { u8 x, }
+repeat _x {
+    u8x
+, f32a {char[ 7 ] Header
+    // `tick` ""quote"" 'q'
+    @lengthOf( i8i8 )
+`" ++ [233]%N ++ runes_of_ascii "` ,
+    // trailing space 
+    } , Header Pad , u8x Logon
+`100% of %d`, }  , repeat string o , int16 zchar@calculatedFrom(// a // b
+""CRC32"" )	`two words`, @tag( 4294967296 )chars { Pad
+packetx`two words` , uint32 stringy@lengthOf( x_y_z ) ``	,	}
+    ,	repeat Header{
+repeat char[ // c
+4294967296
+] Header ,	trueish As , //x
+body ,
+u8 msg_type `tab	here` , } , // a // b
+f64
+    u8x
+`two words`,  repeat len
+    lengthOf,
+    } options/// triple
+{
+rootA
+=
+'0' i64_
+    =/// triple
+zchar[ 0123456789] ; } packet msg_type
+    { x @lengthOf( uint8x) ,@tag( 00 ) char[] calculatedFrom	,
+    repeat Z9_
+{ repeat float64 Pad
+    //x
+    , } ,}// c
+root
+    packet calculatedFrom{ zchar[
+1
+    ]
+    f32a, repeat
+    uint8x {
+match crc  as u8x{0 : zchar , [
+65535 ,
+0
+, ""CRC32""  ,	4294967296 ,
+42, ""\" ++ [233]%N ++ runes_of_ascii """] :chars, ""`tick`"" :
+pack , 255
+// " ++ [128512]%N ++ runes_of_ascii " emoji
+//	t
+:Pad, }
+    ,
+    string a1 `it's`
+,
+tag
+{ a1
+    , //
+match BodyLength as //x
+options1
+{
+    ""packet""
+: Z9_ } , MetaDataX@calculatedFrom( """ ++ [28040; 24687]%N ++ runes_of_ascii """
+    ) // packet A { u8 x, }
+,
+tag
+Pad
+// a // b
+// 50% %s
+, },
+    }  ,
+@tag(
+255
+)zchar[0123456789
+    ]o //x
+,  int16 Logon , @calculatedFrom( """ ++ [128512]%N ++ runes_of_ascii """
+)
+char[ 0 ] metadata
+`it's`
+    , }
 ")).
-Eval vm_compute in ("<<<M1775>>>" ++ check (runes_of_ascii "packet _x {
-    leftPad `it's`,
-    match Logon as matchKey {
-        ""packet"" : stringy,
-        3 : u,
-        //
-        ""1"" : Pad,
+Eval vm_compute in ("<<<M1943>>>" ++ check (runes_of_ascii "packet packetx {
+}
+
+root packet repeatCount {
+    int16 rootA @lengthOf(len) ``,
+    i32 A @calculatedFrom(""a\\""),
+    i16 asx @calculatedFrom(""x y""),
+    repeat char[] x,
+}
+
+root packet lengthOf {
+    @leftPad('0')
+    @calculatedFrom(""\" ++ [233]%N ++ runes_of_ascii """)
+    @lengthOf(Z9_)
+    repeat char[] As,
+    @rightPad(' ')
+    repeat zchar,
+    match a1 as pack {
+        [3] : lengthOf,
+        [007, ""x y""] : A,
     },
-    float32 Z9_ @lengthOf(i8i8) `" ++ [233]%N ++ runes_of_ascii "`,
-    @tag(3)
-    match As as Pad {
-        """" : chars,
-        ""x y"" : i64_,
+    repeat chars {
+        char[4294967296] body,
+        body @lengthOf(pack),
+        string Z9_,
     },
-    @calculatedFrom(""it's"")
     @leftPad(' ')
-    zchar[0123456789] falsey,
-    match A as packetx {
-        [42] : matchKey,
+    zchar[255] Header,
+    @tag(0)
+    repeat char[00] roots,
+    match crc as body {
+        ""`tick`"" : a1,
     },
-    @leftPad(' ')
-    match x as a1 {
-        ""packet"" : a1,
-        10 : pack,
-        ""{,}"" : u8x,
-        [007, 00] : trueish,
-        ""x y"" : pack,
-        """ ++ [233]%N ++ runes_of_ascii "t" ++ [233]%N ++ runes_of_ascii """ : matchKey,
+    @tag(1)
+    char[] rootA @calculatedFrom(""" ++ [233]%N ++ runes_of_ascii "t" ++ [233]%N ++ runes_of_ascii """),
+}
+
+packet pack {
+    match Packet as repeatCount {
+        //x
+        ""a	b"" : pack,
+    },
+    packetx packetx,//	t
+    match o as Packet {
+        // a // b
+        0123456789 : lengthOf,
+        // `tick` ""quote"" 'q'
+        ""CRC32"" : i64_,
+        1 : asx,
+        ""\" ++ [233]%N ++ runes_of_ascii """ : o,
+        ""a	b"" : u128,
+        ""// no comment"" : Packet,
+        // `tick` ""quote"" 'q'
     },
     @leftPad('0')
-    uint8x u,
-    zchar[3] u ``,
-    @rightPad(' ')
-    repeat _x ``,
+    @calculatedFrom(""" ++ [128512]%N ++ runes_of_ascii """)
+    A @calculatedFrom(""{,}"") `u8 x,`,
+    @tag(255)
+    float32 MetaDataX,
+    char[] u128 @lengthOf(zchar),
+    match x as _x {
+        00 : A,
+    },
+    //	t
+}")).
+Eval vm_compute in ("<<<M1538>>>" ++ check (runes_of_ascii "root
+packet 
+len
+
+{	match x
+as
+	metadata  // " ++ [27880; 37322]%N ++ runes_of_ascii "
+	{
+
+    [
+    1  
+  // packet A { u8 x, }
+    	//x
+	,
+    0
+,""""	,""a	b"" 
+, 00
+
+]
+    : pack
+	,[""// no comment"",
+""x y""
+,
+""" ++ [233]%N ++ runes_of_ascii "t" ++ [233]%N ++ runes_of_ascii """
+
+    ]	:  Packet//
+		,  }  ,	repeat
+    lengthOf
+u128 ,
+
+@calculatedFrom( 
+// " ++ [128512]%N ++ runes_of_ascii " emoji
+  	""it's""	)  @lengthOf(calculatedFrom
+    // trailing space 
+  // 50% %s
+      )
+	@lengthOf( u
+
+)
+	metadata
+{
+	int8
+lengthOf
+`crlf
+line`,
+    } ,
+@tag( // trailing space 
+4294967296
+
+)calculatedFrom	{  f32
+    i64_ 	 // packet A { u8 x, }
+`" ++ [233]%N ++ runes_of_ascii "` 
+,
+}
+    , 
+@lengthOf(
+
+BodyLength
+
+    )repeat 	 //x
+	char[
+
+65535] float 
+	    // `tick` ""quote"" 'q'
+	// c
+      ,
+@calculatedFrom(  ""\" ++ [233]%N ++ runes_of_ascii """  ) i64_{match
+    stringy
+as
+
+    _x
+{ 	 //	t
+		[
+
+    4294967296 ,
+3
+	] : i8i8 , [
+""a\""b""
+
+    ]	:  x_y_z
+	,
+3
+	:len	,  }	, }
+    ,
+@tag(	// trailing space 
+0
+
+    )
+
+zchar[
+
+7]
+    x_y_z	, @lengthOf(
+Header)repeat
+    // 50% %s
+    /// triple
+  u64  As`
+`
+,// " ++ [27880; 37322]%N ++ runes_of_ascii "
+    @rightPad( )/// triple
+	@rightPad 
+('\x00'
+) u16
+Header
+    `{ , }`
+,} ")).
+Eval vm_compute in ("<<<M22>>>" ++ check (runes_of_ascii "root packet packetx
+{	char[] leftPad
+@lengthOf( chars )
+, @lengthOf(
+u
+    )repeat uint8 float , A
+,	zchar[ 4294967296 ]string_ @lengthOf( float ), match
+rootA
+as As {// " ++ [128512]%N ++ runes_of_ascii " emoji
+[
+    ""it's"", 255
+    ,// 50% %s
+0123456789
+,""" ++ [233]%N ++ runes_of_ascii "t" ++ [233]%N ++ runes_of_ascii """, ""{,}"" , ""abc"" ,
+""" ++ [233]%N ++ runes_of_ascii "t" ++ [233]%N ++ runes_of_ascii """
+]
+    :int , 4294967296
+:
+    tag// trailing space 
+, }, @calculatedFrom(
+    ""\" ++ [233]%N ++ runes_of_ascii """
+    // packet A { u8 x, }
+    ) @lengthOf( tag ) match leftPad as u {[ ""it's""
+    ] : string_,
+} , @calculatedFrom( ""\n""
+// 50% %s
+// packet A { u8 x, }
+) @lengthOf(calculatedFrom)
+    // 50% %s
+    @lengthOf(
+// trailing space 
+// trailing space 
+MetaDataX)charz, @tag( 65535 ) match f32a as rootA
+    { [
+    """ ++ [128512]%N ++ runes_of_ascii """ ] :
+falsey 0 :// packet A { u8 x, }
+MetaDataX, // @lengthOf(
+}
+    ,
+char[
+    007 ] i8i8 @calculatedFrom( // c
+""" ++ [233]%N ++ runes_of_ascii "t" ++ [233]%N ++ runes_of_ascii """
+// trailing space 
+// " ++ [128512]%N ++ runes_of_ascii " emoji
+) `
+` ,
+} options{trueish
+    /// triple
+    = // c
+true ; rootA	= ""\" ++ [233]%N ++ runes_of_ascii """; trueish
+= false ; } // a // b")).
+Eval vm_compute in ("<<<M260>>>" ++ check (runes_of_ascii "
+packet
+pack { char[] falsey ,  @lengthOf(
+zchar) @rightPad	(
+)
+    float
+    roots,	@calculatedFrom(""// no comment""
+    ) i64 u8x ,
+@lengthOf(
+lengthOf)@leftPad	(
+    )
+    @tag(
+    4294967296	) Packet, match uint8x as Foo // `tick` ""quote"" 'q'
+{
+    ""abc""
+: string_ , } ,
+Logon{repeat//
+char[ 65535 ]matchKey `100% of %d`
+,
+zchar[
+    0123456789] leftPad @calculatedFrom( ""// no comment"" ) ,string // packet A { u8 x, }
+len, }, // @lengthOf(
+u64 body  @lengthOf( string_ )
+    ,
+    // c
+    Z9_
+charz `tab	here` ,
+    //x
+    }MetaData u
+    { lengthOf chars `" ++ [28040; 24687; 31867; 22411]%N ++ runes_of_ascii "` ,  char[ // 50% %s
+007 ] options1`100% of %d`, body u8x , float32/// triple
+body
+`u8 x,` , } packet //	t
+T // c
+{}
+    packet
+    i8i8
+{
+    string
+    packetx, tag
+falsey,} 	 ")).
+Eval vm_compute in ("<<<M1576>>>" ++ check (runes_of_ascii "// top
+    packet // c0a
+    // c0b
+  	u128 
+
+// c1
+{// c2a
+	  // c2b
+u8
+    // c3
+  a
+,
+
+// c5
+}	// c6a
+    // c6b
+root	// c7a
+	// c7b
+    packet // c8a
+
+	// c8b
+      Msg // c9
+
+{ 	 // c10a
+// c10b
+  u8 
+  // c11
+    k 	 // c12a
+// c12b
+	,  u24// c14a
+    // c14b
+
+	{  // c15
+	u8	// c16a
+
+	// c16b
+  Hi 
+
+// c17
+      ,u16 	 // c19
+Lo
+	,// c21
+}, 	 // c23a
+  // c23b
+  repeat 
+	    // c24
+  	i24
+// c25
+    {// c26
+		u32  
+      // c27
+
+q 
+// c28
+  , 	 // c29
+
+}	// c30
+,	// c31
+u128	// c32
+  ,// c33
+  	u16  // c34a
+    // c34b
+	float32x
+    ,	// c36
+  string// c37a
+		// c37b
+s // c38a
+	// c38b
+  	,	// c39a
+  // c39b
+    }// c40a
+	// c40b
+")).
+Eval vm_compute in ("<<<M1784>>>" ++ check (runes_of_ascii "
+// top
+  	packet	// c0a
+    // c0b
+    _x // c1
+
+{ 
+// c2
+
+  match// c3a
+  // c3b
+  Foo // c4
+    as	// c5
+
+	Z9_ 
+	    // c6
+		{""a	b"" 
+	// c8
+:  // c9
+Pad  // c10a
+
+  // c10b
+,
 }
 
-MetaData Foo {
-    a1 Z9_,
-    options1 T,
-    u32 u8x `crlf
-        line`,
-    metadata falsey,
-    lengthOf x_y_z,
+    // c12
+  ,// c13a
+	  // c13b
+repeat  // c14
+    x// c15
+    `// not a comment` 
+    // c16
+  	,
+    @rightPad  // c18
+
+	( 	 // c19a
+      // c19b
+' '
+
+)
+    // c21
+@calculatedFrom(	// c22
+	""a\\""  // c23a
+// c23b
+) 
+    // c24
+	metadata  // c25
+  	MetaDataX // c26
+	,
+@tag(
+	    // c28
+  0  // c29a
+	  // c29b
+    	) Logon
+        // c31
+    int	`two words` 
+    // c33
+,} // c35
+")).
+Eval vm_compute in ("<<<M61>>>" ++ check (runes_of_ascii "MetaData trueish // " ++ [128512]%N ++ runes_of_ascii " emoji
+{
+uint64
+Z9_	`u8 x,` // packet A { u8 x, }
+, zchar[ 3 ]	tag , } root packet tag// " ++ [128512]%N ++ runes_of_ascii " emoji
+{Packet	chars ,  }	packet trueish
+    { @lengthOf(
+    roots )string repeatCount , @calculatedFrom( ""1""
+) @leftPad// 50% %s
+(	'\x00' ) @tag(3
+)
+    int16 stringy ,
+    // `tick` ""quote"" 'q'
+    @rightPad
+( '0'
+    ) @rightPad('\x00')
+//
+// c
+@lengthOf(
+    x ) repeat	trueish pack
+    `a\`, len // " ++ [128512]%N ++ runes_of_ascii " emoji
+, @tag( 3 ) char packetx , } // `tick` ""quote"" 'q'
+packet u
+    {
+u64 options1 //	t
+, }	options { }
+")).
+Eval vm_compute in ("<<<M245>>>" ++ check (runes_of_ascii "root packet x { } options
+    {	msg_type
+=	false //	t
+; Z9_ =	0 ;
+    // c
+    }
+MetaData metadata{
+} packet	_x{ @tag(65535) match BodyLength
+as metadata
+    {
+10
+:trueish , [// `tick` ""quote"" 'q'
+""{,}"" ] : u// @lengthOf(
+,
+    }
+    , @calculatedFrom(""CRC32""
+)@rightPad( '0' ) lengthOf string_
+    ,// 50% %s
+@lengthOf( matchKey
+) Packet
+    { lengthOf@lengthOf( uint8x
+    ) `` ,
+i8i8 { repeat msg_type lengthOf,
+    // c
+    matchKey	,},
+    o @lengthOf( lengthOf ) , }, }
+//	t
+")).
+Eval vm_compute in ("<<<M1871>>>" ++ check (runes_of_ascii "
+MetaData 
+o  //
+{
+    MetaDataX	As 
+`crlf
+line` ,
+    string_
+	T
+
+    ,
+    zchar[
+
+    1
+]
+    Header, 	 //	t
+}	packet packetx{// " ++ [128512]%N ++ runes_of_ascii " emoji
+		repeat  //	t
+  char[ 10
+    // @lengthOf(
+	//
+	] crc `a\`
+
+, @tag(42	) repeat char[]
+	asx
+    `// not a comment`
+, 
+zchar[
+// a // b
+	// " ++ [128512]%N ++ runes_of_ascii " emoji
+    	007
+]
+
+len @lengthOf(
+u )	`a\`
+	,	@leftPad
+    ( '\x00' ) @tag(
+
+    3 )
+
+    @calculatedFrom(  ""a\""b""
+
+)
+
+char[  //x
+10
+] As`
+` ,  } ")).
+Eval vm_compute in ("<<<M1376>>>" ++ check (runes_of_ascii "options {
+    ArrayPrefixLenType = u64;
+    FixedStringPadFromLeft = true;
+    FixedStringPadChar = '0';
+}
+packet Order {
+}
+root packet Leg {
+    char[] Ref,
+    repeat Order,
+    f32 Acct,
+    @leftPad('0') char[10] venue,
+    @rightPad('0') char[3] seqNo,
+    repeat u64 Px,
+    u8 Flags,
+    u32 lastPx @lengthOf(Body),
+    match Flags as Body {
+        185 : Order,
+    },
+    u16 sym @calculatedFrom(""CRC32""),
+}
+")).
+Eval vm_compute in ("<<<M1411>>>" ++ check (runes_of_ascii "// top
+    options // c0
+  {	// c1a
+      // c1b
+  }  
+      // c2
+
+	options  // c3
+  { 
+// c4
+  MetaDataX
+        // c5
+
+	=// c6a
+  // c6b
+  char// c7a
+    // c7b
+  ;
+    }	// c9
+MetaData	// c10
+  	Pad // c11
+
+{	// c12
+i8	metadata  // c14a
+    // c14b
+	, // c15
+      string  // c16a
+// c16b
+
+stringy  ,
+int8	// c19a
+
+// c19b
+  	As// c20
+	`{ , }`
+        // c21
+	,
+
 }
 
-packet calculatedFrom {
-    @tag(3)
-    string A,
-    match leftPad as a1 {
-        //	t
-        0123456789 : calculatedFrom,
-    },
-    match crc as body {
-        00 : _x,
-    },
-    o @calculatedFrom(""x y""),
+")).
+Eval vm_compute in ("<<<M267>>>" ++ check (runes_of_ascii "// " ++ [128512]%N ++ runes_of_ascii " emoji
+packet  Header {metadata
+, T @calculatedFrom( ""// no comment""
+)
+    `100% of %d` , // " ++ [128512]%N ++ runes_of_ascii " emoji
+options1
+i64_ , } options
+{
+    /// triple
+    len =	' ' int = /// triple
+i64 tag
+=0123456789 calculatedFrom
+= // packet A { u8 x, }
+""\" ++ [233]%N ++ runes_of_ascii """
+} options
+{As  = false matchKey =""\n"" ; }options {
+pack
+= ""a\\"" ; float = """ ++ [28040; 24687]%N ++ runes_of_ascii """ A =
+7 i8i8 =	42; }
+")).
+Eval vm_compute in ("<<<M1435>>>" ++ check (runes_of_ascii "packet leftPad {
+    @tag(10)
+    @tag(007)
+    @lengthOf(a1)
+    repeat metadata,
+}
+
+options {
+    // " ++ [128512]%N ++ runes_of_ascii " emoji
+    lengthOf = """ ++ [128512]%N ++ runes_of_ascii """;
 }
 
 packet T {
-}
-
-packet Logon {
-    @leftPad('\x00')
-    As @calculatedFrom(""a	b"") `line1
-        line2`,
-    pack lengthOf,
-}// `tick` ""quote"" 'q'")).
-Eval vm_compute in ("<<<M1344>>>" ++ check (runes_of_ascii "options {
-    FixedStringPadFromLeft = true;
-    FixedStringPadChar = '0';
-}
-packet Leg {
-    InPrice0 {
-        repeat string clOrdID,
-        int16 msgKind,
-        zchar[5] Px,
+    A {
+        tag @calculatedFrom(""abc""),
     },
-    i16 f1,
-    repeat f64 Side2,
-    string Acct,
-}
-packet Cancel {
-    zchar[4] clOrdID,
-    string seqNo,
-    Leg,
-    @leftPad('0') char[11] OrderId,
-}
-packet Quote {
-    repeat char[4] sym,
-    f64 OrderId,
-    repeat Leg,
-    repeat i64 f1,
-    int16 Note,
-    zchar[3] count,
-}
-root packet Ack {
-    @leftPad(' ') char[10] sym,
-    InPx60 {
-        Cancel,
-        repeat char[1] f1,
-        string Tail,
-        repeat InNote55 {
-            int8 count,
-            f64 f1,
-            repeat Cancel,
-        },
-        char[] tag7,
-        repeat string msgKind,
-    },
-    u8 lastPx,
-    match lastPx as Body {
-        152 : Quote,
-        173 : Cancel,
-        4 : Leg,
-    },
-    u16 Ref @calculatedFrom(""CR\
-C32""),
-}
+    @lengthOf(matchKey)
+    string Header @lengthOf(metadata),
+    leftPad @calculatedFrom(""a\""b"") `tab	here`,
+}")).
+Eval vm_compute in ("<<<M94>>>" ++ check (runes_of_ascii "packet BodyLength{ }
+    MetaData Z9_{ // c
+Z9_ _x
+    , }	packet
+float
+{@tag(
+    42 )
+@calculatedFrom(// `tick` ""quote"" 'q'
+""// no comment"")
+    char[
+    42
+]	packetx
+    `it's`
+, } MetaData body{  uint16 zchar `" ++ [233]%N ++ runes_of_ascii "` // " ++ [27880; 37322]%N ++ runes_of_ascii "
+, i32 Pad`" ++ [28040; 24687; 31867; 22411]%N ++ runes_of_ascii "`
+,i8 Header
+,  u16 u128 , i32 u, }
 ")).
-Eval vm_compute in ("<<<M1380>>>" ++ check (runes_of_ascii "// top
-options
-    // c0
-{ // c1a
-  // c1b
-LittleEndian // c2
-=
-    // c3
-true // c4a
-  // c4b
-; }
-    // c6
-packet // c7
-Logon { u8
-    // c10
-x , // c12
-} // c13a
-  // c13b
-packet Logout // c15
-{ // c16a
-  // c16b
-u16 reason , } // c20
-root // c21a
-  // c21b
-packet Frame { u8
-    // c25
-Kind , // c27a
-  // c27b
-u8
-    // c28
-Kind2
-    // c29
-, match // c31
-Kind
-    // c32
-as
-    // c33
-Body // c34a
-  // c34b
-{
-    // c35
-1 :
-    // c37
-Logon // c38a
-  // c38b
-, // c39
-[ // c40a
-  // c40b
-2
-    // c41
-,
-    // c42
-3
-    // c43
-, 4 // c45a
-  // c45b
-] // c46
-: Logout // c48a
-  // c48b
-,
-    // c49
-100
-    // c50
-:
-    // c51
-Logon
-    // c52
-, // c53a
-  // c53b
-} // c54
-, // c55
-match // c56
-Kind2 as // c58
-Trailer { // c60a
-  // c60b
-0 : Logout // c63a
-  // c63b
-, // c64a
-  // c64b
-} // c65a
-  // c65b
-, // c66
-} // c67
-")).
-Eval vm_compute in ("<<<M1356>>>" ++ check (runes_of_ascii "options {
-    StringPrefixLenType = u16;
-    ArrayPrefixLenType = u32;
-    FixedStringPadFromLeft = true;
-    FixedStringPadChar = '0';
-}
-packet Cancel {
-}
-packet Party {
-}
-packet Logon {
-}
-packet Ack {
-}
-packet Logout {
-    repeat InSym87 {
-        InClordid94 {
-            string clOrdID,
-        },
-        string Px,
-        i16 Qty,
-        repeat InCount71 {
-            repeat Cancel,
-            uint16 Tail,
-            char[2] x,
-            repeat string Ref,
-        },
-        Cancel,
-    },
-}
-root packet Order {
-    repeat string tag7,
-    @leftPad(' ') char[3] Px,
-    u8 Qty,
-    match Qty as Body {
-        [28, 62] : Logon,
-        148 : Ack,
-        88 : Party,
-        184 : Cancel,
-    },
-    u16 Note @calculatedFrom(""CRC32""),
-}
-")).
-Eval vm_compute in ("<<<M117>>>" ++ check (runes_of_ascii "// a // b
-packet	u128  {
-    repeat chars	{i64 u8x
-`
-`// a // b
-, // c
-_x
-@lengthOf(  falsey
+Eval vm_compute in ("<<<M144>>>" ++ check (runes_of_ascii "packet leftPad { @leftPad
+(
+' ' ) @calculatedFrom( """ ++ [28040; 24687]%N ++ runes_of_ascii """	) zchar[
+    4294967296 ]string_, metadata
+    { tag  @lengthOf( body ) `two words` ,} ,@tag( 255 )
+int16 asx @calculatedFrom( ""a	b""
     )
-,
-    Logon
-`" ++ [28040; 24687; 31867; 22411]%N ++ runes_of_ascii "` ,repeat char[]
-trueish `tab	here` ,}
-    , } root packet T { match Packet
-as
-trueish {
-""packet"" : charz
-    ,
-    [4294967296 , ""1"" ] : A , 7 : x
-    // " ++ [27880; 37322]%N ++ runes_of_ascii "
-    , [
-    // a // b
-    7 ,""a	b""
-    ]
-:	u128 255 :
-As
-    3:
-Packet,} ,
-//	t
-// trailing space 
-pack
-`a\` , @calculatedFrom( """ ++ [233]%N ++ runes_of_ascii "t" ++ [233]%N ++ runes_of_ascii """ //	t
-)
-    rootA matchKey  ,
-char[ 65535]/// triple
-leftPad @lengthOf( roots
-    //
-    ) , repeat MetaDataX { u64
-    a1 @calculatedFrom(""x y"" ) `doc`  ,//	t
-uint8 falsey
-,
-match BodyLength as A
-{  [ ""\" ++ [233]%N ++ runes_of_ascii """,255 ,"""" ,
-    ""it's"" ] :	Foo ,
-3 : u128}	, } ,	}
-")).
-Eval vm_compute in ("<<<M206>>>" ++ check (runes_of_ascii "//x
-root
-    // " ++ [128512]%N ++ runes_of_ascii " emoji
-    packet
 // `tick` ""quote"" 'q'
-/// triple
-float{options1 A
-,@tag(
-42 )
-    u8x{ tag //x
-@calculatedFrom(	""\" ++ [233]%N ++ runes_of_ascii """) // packet A { u8 x, }
-`tab	here` ,
-    }
-    , int16 asx ,
-    @lengthOf( o
-    )
-@rightPad( ) repeat int
-/// triple
-/// triple
-Logon,@calculatedFrom(""// no comment"" )  @leftPad('\x00')
-    @rightPad('0'	)	zchar[ 65535 //x
-] o `
-`
-    ,
-    repeat As{ //x
-repeat uint16 o ,repeat
-char[ // trailing space 
-1
-    ]o ,
-u128
-metadata	, repeat char[7	] Header ,
-    } , @tag( 0123456789
-    ) a1 tag
-    , float32 asx ,
-    repeat // packet A { u8 x, }
-len
-``
-    ,}
-")).
-Eval vm_compute in ("<<<M1842>>>" ++ check (runes_of_ascii "options
-{
-ArrayPrefixLenType
-    =u64  ;FixedStringPadFromLeft
-    = 
-true
-	; FixedStringPadChar =
-
-    '0'
-
-    ;}
-
-    packet
-Quote
-	{ }packet 
-Ack
-
-    {
-	repeat 
-InNote66
-
-{
-    u8
-
-    pad0 
-,}
-	,
-	}
-
-packet
-
-Reject
-{ }
-root packet
-Order {
-
-Quote ,repeat
-
-    Reject ,  string venue
-	,
-string
-
-    seqNo,
-
-    uint32
-	Ref
-,
-
-u16
-lastPx,
-
-u32
-clOrdID	@lengthOf(
-Body
-)
-
-, match lastPx
-    as Body
-
-    { 190
-
-:
-
-    Reject
-
-, 
-186:
-    Quote , 
-22
-    :
-	Ack
-
-,
-
-}
-    ,	u16
-	Flags @calculatedFrom( ""CR\
-C32"" )
-
-    , }")).
-Eval vm_compute in ("<<<M294>>>" ++ check (runes_of_ascii "options { rootA = 4294967296 ; falsey = ""a\""b""
-;
-As =
-// @lengthOf(
-/// triple
-""""
-;packetx
-    = ""packet"" i8i8 =true ;
-} // `tick` ""quote"" 'q'
-packet x  { repeat zchar
-rootA , char[]
-    pack  `// not a comment`
-,@tag( 00 )
-@tag( 0123456789)
-u @calculatedFrom( ""packet"" )`u8 x,` , Header{
-    zchar[ 00
-    ] body
-,
-    a1	@calculatedFrom( // " ++ [128512]%N ++ runes_of_ascii " emoji
-""it's"" )
-`" ++ [233]%N ++ runes_of_ascii "`, }, } // " ++ [27880; 37322]%N ++ runes_of_ascii "
-MetaData
-    A // a // b
-{zchar /// triple
-matchKey
-    `` , int64 metadata ,char[] _x //	t
+// `tick` ""quote"" 'q'
+`{ , }`// c
 , }
 ")).
-Eval vm_compute in ("<<<M1893>>>" ++ check (runes_of_ascii "options {
-    rootA = 4294967296;
-    falsey = ""a\""b"";
-    As = """";
-    packetx = ""packet""
-    i8i8 = true;
-}// `tick` ""quote"" 'q'
-
-packet x {
-    repeat zchar rootA,
-    char[] pack `// not a comment`,
-    @tag(00)
-    @tag(0123456789)
-    u @calculatedFrom(""packet"") `u8 x,`,
-    Header {
-        zchar[00] body,
-        a1 @calculatedFrom(""it's"") `" ++ [233]%N ++ runes_of_ascii "`,
-    },
+Eval vm_compute in ("<<<M424>>>" ++ check (runes_of_ascii "packet
+    asx { @calculatedFrom(
+""""  ) @tag( options )repeat
+// packet A { u8 x, }
+// trailing space 
+int16 u8x
+,
+@tag(
+    //
+    007 )
+    @tag( 0
+    /// triple
+    ) @tag( 1) u
+    @lengthOf( T ),
+// `tick` ""quote"" 'q'
+//x
+} // " ++ [128512]%N ++ runes_of_ascii " emoji")).
+Eval vm_compute in ("<<<M535>>>" ++ check (runes_of_ascii "packet
+    asx { @calculatedFrom(
+""""  ) @tag( 2@55 )repeat
+// packet A { u8 x, }
+// trailing space 
+int16 u8x
+,
+@tag(
+    //
+    007 )
+    @tag( 0
+    /// triple
+    ) @tag( 1) u
+    @lengthOf( T ),
+// `tick` ""quote"" 'q'
+//x
+} // " ++ [128512]%N ++ runes_of_ascii " emoji")).
+Eval vm_compute in ("<<<M488>>>" ++ check (runes_of_ascii "packet
+    asx { @calculatedFrom(
+""""  ) @tag( 255 )repeat
+// packet A { u8 x, }
+// trailing space 
+int16 u8x
+,
+@tag(
+    //
+    007 )
+    @tag( 0
+    /// triple
+    ) @tag( )1 u
+    @lengthOf( T ),
+// `tick` ""quote"" 'q'
+//x
+} // " ++ [128512]%N ++ runes_of_ascii " emoji")).
+Eval vm_compute in ("<<<M391>>>" ++ check (runes_of_ascii "packet
+     { @calculatedFrom(
+""""  ) @tag( 255 )repeat
+// packet A { u8 x, }
+// trailing space 
+int16 u8x
+,
+@tag(
+    //
+    007 )
+    @tag( 0
+    /// triple
+    ) @tag( 1) u
+    @lengthOf( T ),
+// `tick` ""quote"" 'q'
+//x
+} // " ++ [128512]%N ++ runes_of_ascii " emoji")).
+Eval vm_compute in ("<<<M126>>>" ++ check (runes_of_ascii "packet u{ } packet charz { char[
+//
+// " ++ [128512]%N ++ runes_of_ascii " emoji
+255// " ++ [128512]%N ++ runes_of_ascii " emoji
+]options1
+,@calculatedFrom( """") zchar[ //x
+00 ] leftPad
+, char[]  A`it's` ,} options{ i8i8 = '\x00' ;u128
+= ' ' ; options1=42; charz
+    =
+""\n""
+int= true ;}
+")).
+Eval vm_compute in ("<<<M515>>>" ++ check (runes_of_ascii "packet
+    asx { @calculatedFrom(
+""""  ) @tag( 255 )repeat
+// packet A { u8 x, }
+// trailing space 
+int16 u8x
+,
+@tag(
+    //
+    007 )
+    @tag( 0
+    /// triple
+    ) @tag( 1) u
+    @lengthOf( T")).
+Eval vm_compute in ("<<<M1787>>>" ++ check (runes_of_ascii "MetaData lengthOf {
+    chars asx,
+    T Header `100% of %d`,
+    int32 x_y_z `two words`,
+    zchar[0123456789] Header ``,
+    len x_y_z `
+    `,// c
 }// " ++ [27880; 37322]%N ++ runes_of_ascii "
 
-MetaData A {
-    zchar matchKey ``,
-    int64 metadata,
-    char[] _x,
+packet BodyLength {
 }")).
-Eval vm_compute in ("<<<M1236>>>" ++ check (runes_of_ascii "// top
-options // c0a
-  // c0b
-{ f32a
-    // c2
-= // c3
-0 } // c5
-packet trueish // c7a
-  // c7b
-{ // c8
-}
-    // c9
-MetaData _x // c11
-{ char[ // c13a
-  // c13b
-0123456789 // c14
-] // c15a
-  // c15b
-zchar
-    // c16
-, // c17a
-  // c17b
-string // c18
-crc ,
-    // c20
-char[
-    // c21
-1 ] // c23a
-  // c23b
-options1
-    // c24
-, uint8 // c26a
-  // c26b
-repeatCount
-    // c27
-, // c28
-} // c29
-")).
-Eval vm_compute in ("<<<M75>>>" ++ check (runes_of_ascii "packet zchar { @calculatedFrom( ""`tick`""
-) uint32
-    falsey,} MetaData packetx {
-string
-//
-// @lengthOf(
-msg_type `u8 x,`, }packet i8i8 {zchar@lengthOf(
-uint8x
-    ) ,
-    }packet As{ zchar[ 4294967296
-    // " ++ [27880; 37322]%N ++ runes_of_ascii "
-    ] T	@calculatedFrom( ""abc"" ) , @tag(007 )
-    repeat
-    i16
-// " ++ [27880; 37322]%N ++ runes_of_ascii "
-// packet A { u8 x, }
-u8x `say ""hi""`, @lengthOf( u )
-repeat uint16 u128 , }")).
-Eval vm_compute in ("<<<M1587>>>" ++ check (runes_of_ascii "options {
-    LittleEndian = true;
-    StringPrefixLenType = u16;
-    FixedStringPadChar = ' ';
-}
-
-packet Logon {
-    @leftPad('0')
-    char[10] tag7,
-}
-
-root packet Ack {
-    int32 Px,
-    uint16 count,
-    string Qty,
-    string OrderId,
-    string Flags,
-    u8 x,
-    match x as Body {
-        [58, 169] : Logon,
-    },
-}")).
-Eval vm_compute in ("<<<M370>>>" ++ check (runes_of_ascii "  root packet trueish // " ++ [128512]%N ++ runes_of_ascii " emoji
-{ char[] MetaDataX , @leftPad (
-    // trailing space 
-    '0' )match float as
-//x
-// trailing space 
-crc { 0123456789 :// " ++ [27880; 37322]%N ++ runes_of_ascii "
-chars	, ""{,}"" : i8i8,
-}
-, f32a
-    // " ++ [128512]%N ++ runes_of_ascii " emoji
-    f32a `tab	here` ,// " ++ [128512]%N ++ runes_of_ascii " emoji
-@lengthOf( Foo )
-    Packet@calculatedFrom( """ ++ [28040; 24687]%N ++ runes_of_ascii """ ) `it's` , }
-")).
-Eval vm_compute in ("<<<M1421>>>" ++ check (runes_of_ascii "root  // trailing space 
-packet int
-{ f32a@calculatedFrom( ""packet""
-) 
-`
-`  ,
-
-    }  options {
-rootA 
-
-    // @lengthOf(
+Eval vm_compute in ("<<<M1785>>>" ++ check (runes_of_ascii "options {
+	Foo = true
+    len
 	=
-	""\" ++ [233]%N ++ runes_of_ascii """	;}
-packet i8i8
+'0'
 
-{ 
-
-// trailing space 
-      uint8
-	uint8x 
-@lengthOf(	string_ ) 	 //	t
-
-	,i32 
-tag  //	t
-@lengthOf(
-Logon
-
-)
-, }
-")).
-Eval vm_compute in ("<<<M203>>>" ++ check (runes_of_ascii "root packet Pad {match //	t
-falsey as
-    A{
-255:// `tick` ""quote"" 'q'
-T, } , int64
-Header	`tab	here`
-, repeat i64_ `line1
-line2`, @tag( 7 )
-    float32	zchar
-    @calculatedFrom( ""\" ++ [233]%N ++ runes_of_ascii """
-    )
-//
-// @lengthOf(
-,u64 Header ,
-    }
-")).
-Eval vm_compute in ("<<<M1660>>>" ++ check (runes_of_ascii "packet f32a {
-    @rightPad('0')
-    @lengthOf(BodyLength)
-    uint8 Foo ``,
-    //x
-    char[] options1 @calculatedFrom(""it's""),
-    @tag(255)
-    uint64 Header @calculatedFrom(""abc"") `
-        `,
-}")).
-Eval vm_compute in ("<<<M1743>>>" ++ check (runes_of_ascii "
-
-  root
-	packet T{ zchar[// a // b
-0123456789
-]  // c
-uint8x	,
-	} 
-root	packet
-
-metadata
-{  @rightPad
-(
-)x_y_z	@lengthOf( 
-stringy 
-) 
-      // `tick` ""quote"" 'q'
-// c
-		,}
-
-")).
-Eval vm_compute in ("<<<M1914>>>" ++ check (runes_of_ascii "
-MetaData
-leftPad
-
-    {
-	chars
-
-MetaDataX
-, } packet
-repeatCount{	char[ 255
-    ]  uint8x
-
-`" ++ [233]%N ++ runes_of_ascii "` , }// c
-  	MetaData
-    pack
-
+    ;metadata	= 
+u32;	repeatCount =  42 } 
+MetaData	lengthOf
     {
 
-    As Foo,
+}
+options{ options1	= zchar[
 
-    }
-")).
-Eval vm_compute in ("<<<M511>>>" ++ check (runes_of_ascii "packet uint8x
-{ match pack
-    as msg_type	{
-    0123456789 :	float
-}
-,
-} packet //	t
-a1
-    { } options {packetx
-    = '\x00'	; u128 u128= ""a	b""  ; }
-")).
-Eval vm_compute in ("<<<M506>>>" ++ check (runes_of_ascii "packet uint8x
-{ match pack
-    as msg_type	{
-    0123456789 :	float
-}
-,
-} packet //	t
-a1
-    { } options {packetx
-    = '\x00'	; ; u128= ""a	b""  ; }
-")).
-Eval vm_compute in ("<<<M422>>>" ++ check (runes_of_ascii "packet uint8x
-{ match pack
-    as {	msg_type
-    0123456789 :	float
-}
-,
-} packet //	t
-a1
-    { } options {packetx
-    = '\x00'	; u128= ""a	b""  ; }
-")).
-Eval vm_compute in ("<<<M450>>>" ++ check (runes_of_ascii "packet uint8x
-{ match pack
-    as msg_type	{
-    0123456789 :	float
-}
+    0123456789
 
-} packet //	t
-a1
-    { } options {packetx
-    = '\x00'	; u128= ""a	b""  ; }
+    ]
+} // " ++ [27880; 37322]%N ++ runes_of_ascii "
 ")).
-Eval vm_compute in ("<<<M1772>>>" ++ check (runes_of_ascii "MetaData leftPad
-	{	chars  MetaDataX	,  } packet 
-repeatCount 
-{ 
-char[ 255]
-	uint8x
-`" ++ [233]%N ++ runes_of_ascii "`
+Eval vm_compute in ("<<<M572>>>" ++ check (runes_of_ascii "MetaData u
+    { } MetaData o o
+{ float uint8x
+`100% of %d` ,repeatCount u8x, string_ leftPad
+, i32
+    Foo , int64 x `two words` , calculatedFrom
+stringy `a\` ,
+}
+")).
+Eval vm_compute in ("<<<M549>>>" ++ check (runes_of_ascii "u MetaData
+    { } MetaData o
+{ float uint8x
+`100% of %d` ,repeatCount u8x, string_ leftPad
+, i32
+    Foo , int64 x `two words` , calculatedFrom
+stringy `a\` ,
+}
+")).
+Eval vm_compute in ("<<<M683>>>" ++ check (runes_of_ascii "MetaData u
+    { } MetaData o
+{ float uint8x
+`100% of %d` ,repeatCount u8x, string_ leftPad
+, i32
+    Foo , int64 x `two words` , calculatedFrom
+stringy `a\` }
+,
+")).
+Eval vm_compute in ("<<<M569>>>" ++ check (runes_of_ascii "MetaData u
+    { } char o
+{ float uint8x
+`100% of %d` ,repeatCount u8x, string_ leftPad
+, i32
+    Foo , int64 x `two words` , calculatedFrom
+stringy `a\` ,
+}
+")).
+Eval vm_compute in ("<<<M680>>>" ++ check (runes_of_ascii "MetaData u
+    { } MetaData o
+{ float uint8x
+`100% of %d` ,repeatCount u8x, string_ leftPad
+, i32
+    Foo , int64 x `two words` , calculatedFrom
+stringy")).
+Eval vm_compute in ("<<<M1283>>>" ++ check (runes_of_ascii "
 
+  options
+{
+
+    LittleEndian =
+true; }
+packet 
+B 
+{ u8
+    a 
+,  string s,
+    } root
+packet
+	P
+	{ u16
+L@lengthOf(
+B )
+,
+
+B
+
+,	u8
+
+t, 
+}
+")).
+Eval vm_compute in ("<<<M8>>>" ++ check (runes_of_ascii "MetaData roots //
+{ /// triple
+char[65535 ] i64_,	char[ 0 ] int
+`a\` ,
+uint8 MetaDataX , } packet
+asx{
+char[ 007 ] len
+    `
+`
+,
+}
+")).
+Eval vm_compute in ("<<<M665>>>" ++ check (runes_of_ascii "MetaData u
+    { } MetaData o
+{ float uint8x
+`100% of %d` ,repeatCount u8x, string_ leftPad
+, i32
+    Foo , int64 x `two words`")).
+Eval vm_compute in ("<<<M1942>>>" ++ check (runes_of_ascii "
+options 
+{
+	T
+    =42
+
+    packetx 
+= true  //	t
+	;
+
+    x_y_z= char[]
+    ;trueish	// trailing space 
+
+=	u16	}
+")).
+Eval vm_compute in ("<<<M1209>>>" ++ check (runes_of_ascii "options { } options // c
+{ MetaDataX = char ; } MetaData Pad { i8 metadata , string stringy , int8 As `{ , }` , }")).
+Eval vm_compute in ("<<<M1241>>>" ++ check (runes_of_ascii "options { } options { MetaDataX = char ; } MetaData Pad { i8 metadata , string stringy , int8 // c
+As `{ , }` , }")).
+Eval vm_compute in ("<<<M176>>>" ++ check (runes_of_ascii "packet
+    _x { @lengthOf( packetx
+) _x @lengthOf(// c
+f32a), float64 Header @calculatedFrom( ""it's"" ) , }")).
+Eval vm_compute in ("<<<M1737>>>" ++ check (runes_of_ascii "  packet 
+A
+{
+    match k as  n
+
+    {
+
+[ ""a"",
+22	,
+""c c""
+    , 4
     ,
-
-    // c
-}
-MetaData
-
-pack
-{ As 
-Foo
-
-    ,}
-")).
-Eval vm_compute in ("<<<M660>>>" ++ check (runes_of_ascii "/""/ @lengthOf(
-packet i8i8 { u128 o , }
-options { MetaDataX = true;
-    BodyLength =""packet"" x_y_z= 007
-crc //x
-= ""abc"" ;
-    msg_type =
-i16 }")).
-Eval vm_compute in ("<<<M689>>>" ++ check (runes_of_ascii "// @lengthOf(
-packet i8i8 { u128 o , }
-options { MetaDataX  true;
-    BodyLength =""packet"" x_y_z= 007
-crc //x
-= ""abc"" ;
-    msg_type =
-i16 }")).
-Eval vm_compute in ("<<<M1634>>>" ++ check (runes_of_ascii "packet A {
-    Inner {
-        u8 x `
-                `,
-        Deep {
-            u8 y `
-                        `,
-        },
-    },
+""e""
+    ]
+	:
+B 2
+: C } ,	}")).
+Eval vm_compute in ("<<<M1698>>>" ++ check (runes_of_ascii "MetaData matchKey {
+    i64 float `crlf
+        line`,//	t
+    leftPad asx,
+    uint8x leftPad,
 }")).
-Eval vm_compute in ("<<<M1588>>>" ++ check (runes_of_ascii "packet A {	u16 len 
-@lengthOf( body
+Eval vm_compute in ("<<<M1869>>>" ++ check (runes_of_ascii "  packet
 
-    )
-    `x
-`
-,
-    u32
+    A
+{ Inner{u8
 
-crc
+    x  `a
+b` , 
+Deep
+{ u8
+y
 
-    @calculatedFrom(	""CRC32"" 
-)`x
-`
-,
+`a
+b`
+    ,
+	}  ,}
+    ,
+	}
 
-string
-
-body
-,	} ")).
-Eval vm_compute in ("<<<M1261>>>" ++ check (runes_of_ascii "packet B {
-    u8 a,
+")).
+Eval vm_compute in ("<<<M854>>>" ++ check (runes_of_ascii "packet A {
+  match k as n {
+    [1, ""bb"", 007, ""d"", 5, ""f"", 7, ""h""] : B,
+    2 : C
+  },
+}")).
+Eval vm_compute in ("<<<M1756>>>" ++ check (runes_of_ascii "options {
+    LittleEndian = true;
 }
+
 root packet P {
-    u8 K,
-    u64 L @lengthOf(Body),
-    match K as Body {
-        1 : B,
-    },
-}
-")).
-Eval vm_compute in ("<<<M1150>>>" ++ check (runes_of_ascii "MetaData leftPad { chars
-// c
-MetaDataX , } packet repeatCount { char[ 255 ] uint8x `" ++ [233]%N ++ runes_of_ascii "` , } MetaData pack { As Foo , }")).
-Eval vm_compute in ("<<<M1182>>>" ++ check (runes_of_ascii "MetaData leftPad { chars MetaDataX , } packet repeatCount { char[ 255 ] uint8x `" ++ [233]%N ++ runes_of_ascii "` , } MetaData pack {
-// c
-As Foo , }")).
-Eval vm_compute in ("<<<M239>>>" ++ check (runes_of_ascii "options { lengthOf =3
-trueish
-// packet A { u8 x, }
-// trailing space 
-=
-    true
-; calculatedFrom =
-007;} 	 ")).
-Eval vm_compute in ("<<<M24>>>" ++ check (runes_of_ascii "options { metadata
-= '\x00' ;
-    u128
-=
-    ""CRC32"" ; charz = ' 'options1 = 00 ; }
-packet string_ { }
-")).
-Eval vm_compute in ("<<<M1317>>>" ++ check (runes_of_ascii "packet FooBar {
-    u8 a,
-}
-packet foo_bar {
-    u16 b,
-}
-root packet R {
-    FooBar,
-    foo_bar,
-}
-")).
-Eval vm_compute in ("<<<M554>>>" ++ check (runes_of_ascii "
-packet packet
-    asx {match u128 as lengthOf
-{
-//	t
-// `tick` ""quote"" 'q'
-255 : x ,
-    } ,	}")).
-Eval vm_compute in ("<<<M887>>>" ++ check (runes_of_ascii "packet A {
-  match k as n {
-    [1, 22, ""c c"", 4, 5, ""f"", 7, 8, ""i"", 10] : B
-    2 : C
-  },
-}")).
-Eval vm_compute in ("<<<M870>>>" ++ check (runes_of_ascii "packet A {
-  match k as n {
-    [1, ""bb"", 007, ""d"", 5, ""f"", 7, ""h"", 9] : B
-    2 : C
-  },
-}")).
-Eval vm_compute in ("<<<M614>>>" ++ check (runes_of_ascii "
-packet
-    asx {match u128 as lengthOf
-{
-//	t
-// `tick` ""quote"" 'q'
-255 : x ,
-    , }	}")).
-Eval vm_compute in ("<<<M1307>>>" ++ check (runes_of_ascii "  packet
-orderItem 
-{
-	u8
-    a
-    , 
-}root
-packet
-newOrder{ orderItem	, 
-u8
-x
-	,
-}")).
-Eval vm_compute in ("<<<M116>>>" ++ check (runes_of_ascii "root packet Z9_ { repeat lengthOf
-pack , repeat
-    A {	repeatCount`doc` ,
-    },	}")).
-Eval vm_compute in ("<<<M1723>>>" ++ check (runes_of_ascii "root packet 
-P
-{
-
-    u16 a	,
-
-u32 Sum
-	@calculatedFrom(""CRC32"")
-
-    , }
-")).
-Eval vm_compute in ("<<<M903>>>" ++ check (runes_of_ascii "packet A { Inner { match k as n { [1,22,007,4,5,66,7,8,9,10,11] : B, }, }, }")).
-Eval vm_compute in ("<<<M1099>>>" ++ check (runes_of_ascii "packet A {
-    match k as n {
-        1 : B // c
-        , // d
-    },
-}")).
-Eval vm_compute in ("<<<M1656>>>" ++ check (runes_of_ascii "MetaData M {
-    u8 x `tab
-        	x`,
-    T t `tab
-        	x`,
-}")).
-Eval vm_compute in ("<<<M785>>>" ++ check (runes_of_ascii "packet A {
-  match k as n {
-    [""a"", 22] : B
-    2 : C
-  },
-}")).
-Eval vm_compute in ("<<<M1706>>>" ++ check (runes_of_ascii "root packet P {
-    hdr {
-        u8 a,
-    },
+    repeat char cs,
     u8 x,
 }")).
-Eval vm_compute in ("<<<M1198>>>" ++ check (runes_of_ascii "
-// c
-packet body { i32 f32a `{ , }` , } options { }")).
-Eval vm_compute in ("<<<M332>>>" ++ check (runes_of_ascii "MetaData o
-    { } MetaData T  {
-    } options { }")).
-Eval vm_compute in ("<<<M1449>>>" ++ check (runes_of_ascii "
-root
+Eval vm_compute in ("<<<M114>>>" ++ check (runes_of_ascii "// `tick` ""quote"" 'q'
+options{
+chars  =
+65535	packetx =
+""packet""Z9_
+    = '0' ; }")).
+Eval vm_compute in ("<<<M34>>>" ++ check (runes_of_ascii "packet
+    u8x	{
+repeat
+    Foo  { repeat msg_type`it's`  ,	}	, }
+// " ++ [128512]%N ++ runes_of_ascii " emoji
+")).
+Eval vm_compute in ("<<<M820>>>" ++ check (runes_of_ascii "packet A {
+  match k as n {
+    [1, 22, ""c c"", 4, 5] : B
+    2 : C
+  },
+}")).
+Eval vm_compute in ("<<<M796>>>" ++ check (runes_of_ascii "packet A {
+  match k as n {
+    [""a"", ""bb"", 007] : B
+    2 : C
+  },
+}")).
+Eval vm_compute in ("<<<M251>>>" ++ check (runes_of_ascii "
+root packet len{
+    @calculatedFrom(  ""a\""b"" )
+i16 a1 ,
+    }")).
+Eval vm_compute in ("<<<M1839>>>" ++ check (runes_of_ascii "
+MetaData
+    M  { u8
 
-packet
-	chars
+    x
 
-{ i16 
-leftPad
-, 
+`a
+b` 
+, T  t  `a
+b`  , }
+")).
+Eval vm_compute in ("<<<M1856>>>" ++ check (runes_of_ascii "  root	packet
+	P
+
+{repeat string
+ss ,repeat 
+u16 ns ,}
+
+")).
+Eval vm_compute in ("<<<M1119>>>" ++ check (runes_of_ascii "// top
+MetaData // c0
+tag // c1
+{ // c2
+} // c3
+")).
+Eval vm_compute in ("<<<M1164>>>" ++ check (runes_of_ascii "// top
+packet // c0
+x { // c2
 }
+    // c3
 ")).
-Eval vm_compute in ("<<<M1921>>>" ++ check (runes_of_ascii "options {
-    a = 1;// a
-    b = 2// b
-}")).
-Eval vm_compute in ("<<<M1615>>>" ++ check (runes_of_ascii "root packet u {
-}// trailing space ")).
-Eval vm_compute in ("<<<M1613>>>" ++ check (runes_of_ascii "
+Eval vm_compute in ("<<<M1736>>>" ++ check (runes_of_ascii "
 
-  // c
-    MetaData  tag
-{
-} ")).
-Eval vm_compute in ("<<<M1048>>>" ++ check (runes_of_ascii "packet A {
- u8 x `d" ++ [8203]%N ++ runes_of_ascii "`, // c" ++ [8203]%N ++ runes_of_ascii "
-}")).
-Eval vm_compute in ("<<<M1953>>>" ++ check (runes_of_ascii "  packet
+  packet
 
-int
-{
-} 
-//	t
+    A {u8	x
+	`a
+b`
+,	}
 ")).
-Eval vm_compute in ("<<<M1470>>>" ++ check (runes_of_ascii "
-// c" ++ [133]%N ++ runes_of_ascii "
-packet  A {}
-")).
-Eval vm_compute in ("<<<M22>>>" ++ check (runes_of_ascii "packet leftPad {
+Eval vm_compute in ("<<<M1192>>>" ++ check (runes_of_ascii "options { A = ""// no comment""
+// c
 }")).
-Eval vm_compute in ("<<<M997>>>" ++ check (runes_of_ascii "// c" ++ [5760]%N ++ runes_of_ascii "
+Eval vm_compute in ("<<<M920>>>" ++ check (runes_of_ascii "root packet A {
+    u8 x `a
+b`,
+}")).
+Eval vm_compute in ("<<<M997>>>" ++ check (runes_of_ascii "packet A {
+ u8 x `d `, // c 
+}")).
+Eval vm_compute in ("<<<M915>>>" ++ check (runes_of_ascii "packet A {
+    u8 x `a
+b`,
+}")).
+Eval vm_compute in ("<<<M1152>>>" ++ check (runes_of_ascii "root packet a1 { }
+// c
+")).
+Eval vm_compute in ("<<<M1125>>>" ++ check (runes_of_ascii "MetaData
+// c
+tag { }")).
+Eval vm_compute in ("<<<M1026>>>" ++ check (runes_of_ascii "// c" ++ [8202]%N ++ runes_of_ascii "
 packet A {
 }")).
-Eval vm_compute in ("<<<M172>>>" ++ check (runes_of_ascii "packet
-len { }
-
-")).
-Eval vm_compute in ("<<<M310>>>" ++ check (runes_of_ascii "
-MetaData A {}
-")).
-Eval vm_compute in ("<<<M732>>>" ++ check (runes_of_ascii "// a
-// b
-")).
-Eval vm_compute in ("<<<M157>>>" ++ check (runes_of_ascii "//
-
+Eval vm_compute in ("<<<M1003>>>" ++ check (runes_of_ascii "packet A {
+}// c" ++ [160]%N)).
+Eval vm_compute in ("<<<M766>>>" ++ check (runes_of_ascii "zchar[ , uint16")).
+Eval vm_compute in ("<<<M1079>>>" ++ check (runes_of_ascii "// c x")).
+Eval vm_compute in ("<<<M39>>>" ++ check (runes_of_ascii "
 ")).
